@@ -106,9 +106,10 @@ def _cpu_guard(on):
     signal.setitimer(signal.ITIMER_VIRTUAL, limit if on else 0)
 
 
-def load(d, text):
-    """Returns (outcome, ntokens, signature|None, detail)."""
-    p = budget_parser(d)
+def load(d, text, deckw=None):
+    """Returns (outcome, ntokens, signature|None, detail).  *deckw*: documented decoder
+    options (real_cls, quantity_cls) - a parser configuration like any other."""
+    p = budget_parser(d, deckw=deckw) if deckw else budget_parser(d)
     guard = len(text) <= 2000
     try:
         if guard:
@@ -188,6 +189,49 @@ CONTEXTS = ["a = {t}", "a = ({t}, 1)", "a = (1, {t})", "a = {{{t}}}", "a = {t} <
             "{t} = 1", "GROUP = {t} x = 1 END_GROUP", "a = 1 {t} b = 2",
             "GROUP = g x = 1 END_GROUP = {t}", "a = <{t}>", "a = 1 END {t}",
             "OBJECT = o a = {t} END_OBJECT"]
+
+
+class PlainQuantity:
+    """A substitute quantity class that accepts everything."""
+    def __init__(self, value, units):
+        self.value, self.units = value, units
+
+
+# numerals at and beyond what float, int and Decimal can hold
+EXTREME_NUMERALS = ["1E+1000000000000000000", "2.5e-9223372036854775808",
+                    "3e99999999999999999999", "-1e999", "1e-999", "0e0", "1E400", ".5E-400",
+                    "9" * 400, "-" + "9" * 400 + ".5", "1" * 4400, "16#" + "F" * 400 + "#",
+                    "2#" + "1" * 5000 + "#", "1e+", "1e", "+.e5", "1.e+05", "00012", "-0",
+                    "1_000", "١٢٣", "１２", "1e١", "NaN", "inf", "-Infinity", "1E9999999999999999999"]
+
+
+def decoder_options(acc):
+    """The documented decoder options as parser configurations: real_cls=Decimal, a substitute quantity_cls - over the curated numerals, numerals that
+    leave the range of float / int / Decimal, and every statement context."""
+    from decimal import Decimal
+    from props import c17
+    toks = EXTREME_NUMERALS + sorted(
+        {t for t in c17.CURATED if t and "\n" not in t and (t[0].isdigit() or t[0] in "+-.")})
+    # (not Fraction: Fraction("1E+1000000000000000000") itself never returns)
+    options = [dict(real_cls=Decimal),
+               dict(quantity_cls=PlainQuantity), dict(real_cls=Decimal,
+                                                      quantity_cls=PlainQuantity)]
+    for t in toks:
+        for ctx in CONTEXTS[:6] + CONTEXTS[9:10]:
+            text = ctx.replace("{t}", t)
+            for d in PARSERS:
+                for kw in options:
+                    if acc.expired():
+                        acc.notes["budget_exhausted"] = 1
+                        return
+                    try:
+                        r = load(d, text, deckw=kw)
+                    except TypeError as e:
+                        if "unexpected keyword" in str(e):
+                            acc.event("opt:option-not-taken-by-this-decoder")
+                            continue
+                        raise
+                    record(acc, d + "+" + "+".join(sorted(kw)), text, r, "opt")
 
 
 def tokens_in_context(acc):
@@ -386,6 +430,7 @@ def shards(tier, seed):
                         dict(first=[v], length=length, variants=list(PARSERS),
                              vocab="HASHDASH")))
     out.append(("tokens_in_context", {}))
+    out.append(("decoder_options", {}))
     out.append(("long_flat", {}))
     n = 400 if tier == "quick" else 12000
     for j in range(16):
@@ -401,8 +446,22 @@ def shards(tier, seed):
     return out
 
 
+def _variant(v):
+    """'default+quantity_cls+real_cls' -> ('default', {...})  (Decimal stands for the
+    real_cls options: it is the one the documentation names)"""
+    from decimal import Decimal
+    d, *opts = v.split("+")
+    kw = {}
+    if "real_cls" in opts:
+        kw["real_cls"] = Decimal
+    if "quantity_cls" in opts:
+        kw["quantity_cls"] = PlainQuantity
+    return d, kw
+
+
 def replay(case):
-    r = load(case["variant"], case["text"])
+    d, kw = _variant(case["variant"])
+    r = load(d, case["text"], deckw=kw or None)
     if r[2] is not None:
         return (r[2], r[3])
     return None
